@@ -210,6 +210,14 @@ func GenTree(seed uint64, shape, names string, cs int64, maxBytes int64) Tree {
 		for i := 0; i < n; i++ {
 			t.Entries = append(t.Entries, Entry{Rel: fmt.Sprintf("d%02d/t%04d", r.Intn(nd), i), Size: int64(r.Intn(40))})
 		}
+	case "bigmanifest":
+		// a manifest whose JSON exceeds 1 MiB (the control header is then read
+		// in several steps): ~1700 small files below long directory names
+		d := strings.Repeat("d", 200) + "/" + strings.Repeat("e", 200) + "/" + strings.Repeat("f", 200)
+		n := 1700 + r.Intn(300)
+		for i := 0; i < n; i++ {
+			t.Entries = append(t.Entries, Entry{Rel: fmt.Sprintf("%s/%s-%05d", d, strings.Repeat("n", 60), i), Size: int64(r.Intn(3))})
+		}
 	case "prefixnames":
 		// names that are string prefixes of their neighbours in sort order:
 		// empty directories next to files / directories whose name continues
